@@ -665,6 +665,10 @@ func deepEq(fr *frame, x, y value) value {
 		if x.zero || yt.zero {
 			return x.zero == yt.zero
 		}
+		if x.zone != yt.zone {
+			// the same instant rendered in two zones: different bytes (RFC 3339 offset)
+			return false
+		}
 		tx, _ := toTerm(x.ns)
 		ty, _ := toTerm(yt.ns)
 		return simp(Eq(tx, ty))
